@@ -35,6 +35,35 @@ def handle (c obs : String) : String × Bool × String :=
   match parseCase c with
   | none => ("bad-case", false, "unparsable case")
   | some (p, rs) =>
+    if isAsync c then
+      -- asynchronous stages: schedule dependent; evaluate the property on the observation: a fault whose
+      -- call position was reached must surface with the injected error in the chain, and what was
+      -- delivered must be a sub-multiset of the fault-free delivery (no zero stand-ins, no duplicates)
+      match parseObs obs, rs with
+      | some [o], [r] =>
+        -- unordered stages under an early stop may deliver ANY n of the mapped elements: compare with the
+        -- whole fault-free multiset
+        let full := Spec.eval p
+        -- a fault in read-ahead work that no consumer ever demands need not be observed: the surfacing clause
+        -- is checked only where everything pulled is demanded (no early stop, no zip that ends at the first EOF)
+        let demandAll := r.take.isNone && !((words c).contains "zip")
+        let subOk := match full with
+          | some l => subMultisetStr o.delivered (fmtVs (l.mergeSort (fun a b => fmtV a ≤ fmtV b)))
+          | none => true
+        match r.fault with
+        | some (pos, k) =>
+          -- under an early-stopping terminal a fault in read-ahead work need not be observed at all
+          if k == .cancel || pos ≥ o.calls || !demandAll then (obs, subOk, if subOk then "" else "async: delivered an element the fault-free run does not deliver")
+          else
+            let wantCls := match k with | .panicVal => "panicval" | _ => "user"
+            if o.ok then (obs, false, s!"async: fault swallowed, terminal returned success (want err:{wantCls})")
+            else if o.cls != wantCls then (obs, false, s!"async: wrong error class {o.cls} (want {wantCls})")
+            else (obs, subOk, if subOk then "" else "async: delivered an element the fault-free run does not deliver")
+        | none =>
+          let okAll := o.ok && (r.take.isSome || (match full with | some l => o.delivered == fmtVs (l.mergeSort (fun a b => fmtV a ≤ fmtV b)) | none => true)) && subOk
+          (obs, okAll, if okAll then "" else "async: fault-free run does not deliver the mapped multiset")
+      | _, _ => (obs, false, "unparsable observation")
+    else
     let model := agreeOr { } (modelText p rs) obs
     match parseObs obs, rs with
     | some [o], [r] => let (ok, why) := specRun p r o; (model, ok, why)
